@@ -33,7 +33,14 @@ ROUND_ACTIONS = ["NewRound", "OldNext"]
 FAULTS = {"nodrain": "NoStuckLeak", "drain_nj": "NoStuckLeak", "noguard": "SecondCallRefused",
           "norestore": "CounterRestored", "noctx": "ByDeadline", "ij": None,
           "sharedchan": ("ExactlyOncePrefix", "InTimeCounted")}
-BLOCKED = (3, 5, NEVER)
+# LATENESS of a straggler (completion time > deadline of a clock that ignores its context), in model units = seconds
+# of virtual time after its round's start: CollectMC!LateVals and the two small values
+LATE_CLASS = {3: "just_after", 5: "seconds", 90: "minutes", 7200: "hours", 259200: "days", 3000000: "weeks"}
+FAR = ("minutes", "hours", "days", "weeks")
+
+
+def blocked(d):
+    return d > 2          # 3, 5, the lateness scale, NEVER
 
 
 def scen_index(n, d, o):
@@ -54,7 +61,8 @@ def lead(ms):
 
 
 def scen_class(r):
-    ks = sorted({{1: "before", 2: "at", 3: "after", 5: "longafter", NEVER: "never"}[x] for x in r["d"]})
+    ks = sorted({{1: "before", 2: "at", 3: "after", 5: "longafter", NEVER: "never"}.get(x) or "late_" + LATE_CLASS.get(x, "other")
+                 for x in r["d"]})
     return "n=%d %s" % (r["n"], "+".join(ks) if ks else "none")
 
 
@@ -76,7 +84,7 @@ def straggler_classes(rounds):
     res = set()
     for a, b in zip(rounds, rounds[1:]):
         for d in a["d"]:
-            if d in (3, 5) and d > a["rt"]:
+            if 2 < d != NEVER and d > a["rt"]:
                 rel = d - a["rt"] - b["gap"]
                 res.add("before_next_deadline" if rel < 2 else "at_next_deadline" if rel == 2 else "after_next_deadline")
                 if rel < b["rt"]:
@@ -84,9 +92,34 @@ def straggler_classes(rounds):
     return res
 
 
+def lateness(rounds):
+    """Spec side: the LATENESS dimension of a generated history: per round the classes of its stragglers (clocks that
+    ignore their context and answer after the deadline)."""
+    return [[LATE_CLASS.get(d, "other") for d in r["d"] if 2 < d != NEVER] for r in rounds]
+
+
+def count_lateness(cnt, rounds, what):
+    per = lateness(rounds)
+    far = [[c for c in x if c in FAR] for x in per]
+    for c in {c for x in per for c in x}:
+        cnt["%s_with_a_straggler_%s_late" % (what, c)] += 1
+    if sum(map(len, far)) == 1:
+        cnt["%s_with_one_far_straggler" % what] += 1
+    if sum(map(len, far)) >= 2:
+        cnt["%s_with_several_far_stragglers" % what] += 1
+    if any(len(x) >= 2 for x in far):
+        cnt["%s_with_several_far_stragglers_in_one_round" % what] += 1
+    if sum(1 for x in far if x) >= 2:
+        cnt["%s_with_far_stragglers_in_several_rounds" % what] += 1
+    if any(len(set(x)) >= 2 for x in far) or len({c for x in far for c in x}) >= 2:
+        cnt["%s_with_far_stragglers_of_different_lateness" % what] += 1
+    if far and far[-1] == [] and any(far[:-1]):
+        cnt["%s_with_rounds_after_the_far_straggler_s_round" % what] += 1
+
+
 def blocked_prefix(r):
     p = 0
-    while p < r["n"] and r["d"][p] in BLOCKED:
+    while p < r["n"] and blocked(r["d"][p]):
         p += 1
     return p
 
@@ -111,19 +144,22 @@ def _run(ctx, ex):
     def launch():
         # ---- 1b/2b/2c run beside the single-round generator (at most 8 TLC workers in total)
         # histories of rounds on one collector, exhaustively at small scope
-        f_rounds = bg("CollectMC", "Collect_rounds.cfg" if q else "Collect_rounds_deep.cfg", workers=4, timeout=900,
+        f_rounds = bg("CollectMC", "Collect_rounds.cfg" if q else "Collect_rounds_deep.cfg", workers=3, timeout=900,
                       coverage=True, tag="rounds")
+        # how LATE stragglers return (minutes .. days / weeks after the deadline), exhaustively at small scope
+        f_late = bg("CollectMC", "Collect_late.cfg" if q else "Collect_late_deep.cfg", workers=2, timeout=900,
+                    coverage=True, tag="late")
         # ... and sampled at a larger one, printed for the harness
         f_rgen = bg("CollectMC", "Collect_rgen.cfg", workers=1, timeout=900,
                     simulate="num=%d" % (1000 if q else 4000), depth=300, tag="gen-rounds")
         # rounds with many clocks
         f_big = bg("CollectMC", "Collect_big.cfg", workers=1, timeout=900,
                    simulate="num=%d" % (150 if q else 1200), depth=600, tag="gen-big")
-        return f_rounds, f_rgen, f_big
+        return f_rounds, f_rgen, f_big, f_late
 
     # ---- 1. design level, single rounds
     if q:
-        f_rounds, f_rgen, f_big = launch()
+        f_rounds, f_rgen, f_big, f_late = launch()
     # quick: one run decides the clauses for <= 3 clocks AND prints the final outcomes (Emit is part of
     # Collect_exh.cfg); thorough: <= 4 clocks, the generator is a separate single-worker run
     r = ctx.tlc("CollectMC", "Collect_exh.cfg" if q else "Collect_deep.cfg", timeout=900, coverage=q,
@@ -136,7 +172,7 @@ def _run(ctx, ex):
             raise vlib.Inconclusive("Collect.tla: actions never taken in %s: %s" % (r["cfg"], dead))
         g = r
     else:
-        f_rounds, f_rgen, f_big = launch()
+        f_rounds, f_rgen, f_big, f_late = launch()
         # ---- 2a. scenarios and their allowed outcome sets, from TLC
         g = ctx.tlc("CollectMC", "Collect_gen.cfg", workers=1, timeout=900, tag="gen")
     outs = ctx.emitted(g["out"])
@@ -164,6 +200,12 @@ def _run(ctx, ex):
         raise vlib.Inconclusive("Collect.tla: actions of the multi-round dimension never taken in %s: %s" % (rr["cfg"], dead))
     ctx.log("TLC histories of rounds on one collector (%s): %d distinct states, every clause holds for every round"
             % (rr["cfg"], rr["distinct"]))
+    rl = f_late.result()
+    dead = covered_actions(rl["out"], ROUND_ACTIONS + ["Tick", "DrainNext"])
+    if dead:
+        raise vlib.Inconclusive("Collect.tla: actions of the lateness dimension never taken in %s: %s" % (rl["cfg"], dead))
+    ctx.log("TLC lateness of stragglers over orders of magnitude (%s): %d distinct states, every clause holds for every "
+            "round, NoLeak after the last straggler has returned" % (rl["cfg"], rl["distinct"]))
     # ---- 2b. histories for the harness; vacuity guards on the SPEC side
     hists, seenh = [], set()
     for h in ctx.emitted(f_rgen.result()["out"]):
@@ -182,10 +224,14 @@ def _run(ctx, ex):
         gen["rounds_started_one_unit_after_the_return"] += sum(1 for x in rounds[1:] if x["gap"] == 1)
         for c in straggler_classes(rounds):
             gen["histories_straggler_" + c] += 1
+        count_lateness(gen, rounds, "histories")
     need = ["histories_with_a_round_started_beside_live_goroutines", "rounds_started_one_unit_after_the_return",
             "histories_straggler_before_next_deadline", "histories_straggler_at_next_deadline",
             "histories_straggler_after_next_deadline", "histories_straggler_while_next_round_in_progress",
-            "histories_of_3_rounds"]
+            "histories_of_3_rounds"] + ["histories_with_a_straggler_%s_late" % c for c in LATE_CLASS.values()] + [
+            "histories_with_one_far_straggler", "histories_with_several_far_stragglers",
+            "histories_with_several_far_stragglers_in_one_round", "histories_with_far_stragglers_in_several_rounds",
+            "histories_with_far_stragglers_of_different_lateness", "histories_with_rounds_after_the_far_straggler_s_round"]
     weak = [k for k in need if gen[k] < 10]
     if weak:
         raise vlib.Inconclusive("vacuous history generator (Collect_rgen.cfg): %s" % {k: gen[k] for k in weak})
@@ -201,9 +247,10 @@ def _run(ctx, ex):
     for rounds in bigs:
         x = rounds[0]
         p = blocked_prefix(x)
-        nb = sum(1 for d in x["d"] if d in BLOCKED)
+        nb = sum(1 for d in x["d"] if blocked(d))
         bgen["rounds"] += 1
         bgen["n=%d" % x["n"]] += 1
+        count_lateness(bgen, rounds, "rounds")
         if 0 < p < x["n"] and nb == p:
             bgen["blocked_prefix"] += 1
             if any(x["d"][k] == 1 and x["o"][k] == "ok" for k in range(p, x["n"])):
@@ -212,7 +259,7 @@ def _run(ctx, ex):
                 bgen["blocked_prefix_of_4_or_more"] += 1
             if p >= 16:
                 bgen["blocked_prefix_of_16_or_more"] += 1
-        elif 0 < nb < x["n"] and all(d in BLOCKED for d in x["d"][x["n"] - nb:]):
+        elif 0 < nb < x["n"] and all(blocked(d) for d in x["d"][x["n"] - nb:]):
             bgen["blocked_suffix"] += 1
         elif 0 < nb < x["n"]:
             bgen["blocked_subset"] += 1
@@ -222,7 +269,9 @@ def _run(ctx, ex):
             bgen["none_blocked"] += 1
     weak = [k for k in ["n=5", "n=8", "n=9", "n=12", "n=17", "n=33", "n=64", "blocked_prefix_then_early_success",
                         "blocked_prefix_of_4_or_more", "blocked_prefix_of_16_or_more", "blocked_suffix",
-                        "blocked_subset"] if bgen[k] < 3]
+                        "blocked_subset", "rounds_with_several_far_stragglers_in_one_round",
+                        "rounds_with_far_stragglers_of_different_lateness"]
+            + ["rounds_with_a_straggler_%s_late" % c for c in FAR] if bgen[k] < 3]
     if weak:
         raise vlib.Inconclusive("vacuous large-round generator (Collect_big.cfg): %s" % {k: bgen[k] for k in weak})
     ctx.log("TLC generated %d distinct rounds with 5..64 clocks: %s" % (len(bigs), dict(bgen)))
@@ -370,9 +419,17 @@ def _run(ctx, ex):
         if x["kind"] == "big":
             real["large_rounds"] += x["count"]
             real["large_rounds_n=%d" % x["n"]] += x["count"]
+        far = {LATE_CLASS.get(d) for d in x["d"] if 2 < d != NEVER} & set(FAR)
+        if far:
+            real["rounds_with_far_stragglers"] += x["count"]
+            if x["calls"] == x["n"]:    # NoLeak's premise: judged after the last straggler has returned
+                real["rounds_with_far_stragglers_judged_after_the_last_one_returned"] += x["count"]
+            for c in far:
+                real["rounds_with_a_straggler_%s_late" % c] += x["count"]
     ctx.log("real histories: %s" % dict(real))
     if not ctx.violations and not ctx.known:
-        if real["later_rounds_started_beside_running_earlier_clocks"] == 0 or real["large_rounds_n=64"] == 0:
+        if real["later_rounds_started_beside_running_earlier_clocks"] == 0 or real["large_rounds_n=64"] == 0 \
+                or real["rounds_with_far_stragglers_judged_after_the_last_one_returned"] == 0:
             raise vlib.Inconclusive("vacuous replay: %s" % dict(real))
     nontrivial = len({(x["hid"], x["rnd"], x["phase"], x["rt"], tuple(x["ms"])) for x in recs if x["n"] >= 1})
     pick = [x for x in recs if x["kind"] == "single" and x["n"] == maxn and NEVER in x["d"] and 2 in x["d"]
@@ -400,15 +457,36 @@ def _run(ctx, ex):
         % (len(bigs), ", ".join("%s: %d" % (k, bgen[k]) for k in sorted(bgen, key=lambda s: (len(s), s)) if k.startswith("n=")),
            bgen["blocked_prefix"], bgen["blocked_prefix_then_early_success"], bgen["blocked_prefix_of_4_or_more"],
            bgen["blocked_prefix_of_16_or_more"], bgen["blocked_suffix"], bgen["blocked_subset"], real["large_rounds"]))
+    ctx.notes.append(
+        "dimension LATENESS of stragglers (how long after the deadline a clock that ignores its context returns: 3 / 5 / "
+        "90 / 7200 / 259200 / 3000000 units = just after, seconds, minutes, hours, days, weeks of virtual time; Tick "
+        "jumps to the next return as synctest does): TLC decided every clause incl. NoLeak for every history of %s (%d "
+        "distinct states, behaviours last until the last straggler has returned); TLC generated %d histories with a "
+        "straggler minutes / %d hours / %d days / %d weeks late, %d with one and %d with several such stragglers (%d "
+        "with several in one round, %d in several rounds, %d of different lateness, %d with further rounds after the "
+        "straggler's), and %d large rounds with several (%d of different lateness); replayed: %d rounds with such "
+        "stragglers on the real code (minutes %d, hours %d, days %d, weeks %d), %d of them judged after every "
+        "measurement call had returned"
+        % (rl["cfg"], rl["distinct"], gen["histories_with_a_straggler_minutes_late"],
+           gen["histories_with_a_straggler_hours_late"], gen["histories_with_a_straggler_days_late"],
+           gen["histories_with_a_straggler_weeks_late"], gen["histories_with_one_far_straggler"],
+           gen["histories_with_several_far_stragglers"], gen["histories_with_several_far_stragglers_in_one_round"],
+           gen["histories_with_far_stragglers_in_several_rounds"], gen["histories_with_far_stragglers_of_different_lateness"],
+           gen["histories_with_rounds_after_the_far_straggler_s_round"],
+           bgen["rounds_with_several_far_stragglers_in_one_round"], bgen["rounds_with_far_stragglers_of_different_lateness"],
+           real["rounds_with_far_stragglers"], real["rounds_with_a_straggler_minutes_late"],
+           real["rounds_with_a_straggler_hours_late"], real["rounds_with_a_straggler_days_late"],
+           real["rounds_with_a_straggler_weeks_late"],
+           real["rounds_with_far_stragglers_judged_after_the_last_one_returned"]))
     ctx.cov.update(
         evaluations=runs, distinct_nontrivial=nontrivial,
         rule="rounds run on the real MeasureClockOffsets under synctest with seeded scheduler perturbation and a second "
              "call during/after/never, from three TLC generators over Collect.tla: (a) every single-round scenario with "
              "0..%d clocks (per clock: result ready before/at/after the deadline with value or error, or blocked until "
              "cancellation), each run %s times; (b) TLC -simulate histories of up to 3 rounds on ONE collector (<= 3 "
-             "clocks per round, clocks answering up to 5 units after their round's start, the next round starting 0 or "
+             "clocks per round, clocks answering 1 .. 5 or 90 / 7200 / 259200 / 3000000 units after their round's start, the next round starting 0 or "
              "1 units after the previous return), each run %s times; (c) TLC -simulate rounds with 5..64 clocks of "
-             "which a prefix/suffix/random subset is blocked, each run %s times; distinct_nontrivial = distinct "
+             "which a prefix/suffix/random subset is blocked (until cancellation, or late by up to 3000000 units), each run %s times; distinct_nontrivial = distinct "
              "(history, round, phase, return time, result slice) with at least one clock"
              % (maxn, "60" if q else "500", "8" if q else "24", "8" if q else "20"),
         traces_validated_against_impl=nval, exhaustive=True,
@@ -422,9 +500,10 @@ def _run(ctx, ex):
         "goroutine of the bubble is durably blocked)",
         "small scope for the exhaustive part: <= 3 (quick) / <= 4 (thorough) reference clocks in single rounds; histories "
         "of 2 rounds with <= 2 clocks (and 3 rounds in the thorough tier); completion times abstracted to "
-        "before/at/after the deadline/long after/never; the next round starts 0 or 1 units after the previous return",
+        "before/at/after the deadline/long after/late by minutes, hours, days (weeks: thorough)/never; the next round starts 0 or 1 units after the previous return",
         "rounds with 5..64 clocks and histories of 3 rounds with <= 3 clocks are sampled (TLC -simulate), not enumerated",
-        "scripted clocks return by 5 units or at ctx.Done; the caller cancels after return as sync.measureOffsetToRefClks does",
+        "scripted clocks return by 3000000 units (five weeks of virtual time) or at ctx.Done; a history is observed "
+        "until its last straggler has returned plus 20 units; the caller cancels after return as sync.measureOffsetToRefClks does",
         "goroutines left behind are detected by stack inspection (frames of core/client in the bubble) and, independently, "
         "by synctest's bubble-exit check, once per history after every clock of every round has returned",
         "a select is modelled as a free choice among ready cases; the real scheduler's choice is checked for membership "
